@@ -140,16 +140,21 @@ def run(P, rep, tier):
     kw0 = init.node.args.kwarg.arg if init.node.args.kwarg else None
     for n in walk_no_nested(init.node):
         if isinstance(n, ast.Call) and isinstance(n.func, ast.Attribute) and isinstance(n.func.value, ast.Name) \
-                and n.func.value.id == init.params()[0] and any(k.arg is None and isinstance(k.value, ast.Name) and k.value.id == kw0 for k in n.keywords):
+                and n.func.value.id == init.params()[0]:
             h = D.base.find_method(n.func.attr)
-            if h is not None and h.node.args.kwarg:
-                holders.append(h)
-    loops = [(h, n) for h in holders for n in walk_no_nested(h.node) if isinstance(n, ast.For)]
+            if h is None:
+                continue
+            if any(k.arg is None and isinstance(k.value, ast.Name) and k.value.id == kw0 for k in n.keywords) and h.node.args.kwarg:
+                holders.append((h, h.node.args.kwarg.arg))          # self.helper(**attrs)
+            for i_, a_ in enumerate(n.args):
+                if isinstance(a_, ast.Name) and a_.id == kw0 and i_ + 1 < len(h.params()):
+                    holders.append((h, h.params()[i_ + 1]))          # self.helper(attrs)
+    holders = [(init, kw0)] + [x for x in holders[1:]]
+    loops = [(h, mp, n) for h, mp in holders for n in walk_no_nested(h.node) if isinstance(n, ast.For)]
     ok_loop = False
-    for holder, lp in loops:
+    for holder, kwarg, lp in loops:
         if not (isinstance(lp.iter, ast.Call) and isinstance(lp.iter.func, ast.Attribute) and lp.iter.func.attr == 'items'):
             continue
-        kwarg = holder.node.args.kwarg.arg if holder.node.args.kwarg else None
         if not (isinstance(lp.iter.func.value, ast.Name) and lp.iter.func.value.id == kwarg):
             continue
         ok_loop = True
